@@ -47,7 +47,10 @@ Record Inv (s : cstate) : Prop := mkInv {
            inv_closed : forall x d, In x (retained s) -> In d (retained s) ->
              g_del_is_kind5 (ev_kind d) = true -> ev_pk x = ev_pk d ->
              ~ In (event_key x) (k5_keys d) /\ ~ In (ev_id x) (k5_keys d);
-  (* I9 *) inv_no_ephemeral : forall e, In e (retained s) -> g_event_type (ev_kind e) <> 3
+  (* I9 *) inv_no_ephemeral : forall e, In e (retained s) -> g_event_type (ev_kind e) <> 3;
+  (* I10: the registry has one entry per (key, author); needed because
+          [al_del] removes the first entry only (added by cacheA) *)
+           inv_del_keys_nodup : NoDup (List.map fst (c_del s))
 }.
 
 (** a history is admissible when its events are distinct by id and have
